@@ -88,6 +88,7 @@ func refRecvBody(sc Scn, src, view fsmodel.Tree, srcDir string, res *RefRecvRes)
 	return func(t *testing.T, s *Stepper, x *Exec) {
 		link := netsim.NewLink(sc.Cap)
 		link.PostYield = sc.PostYield
+		link.Rendezvous = sc.Rendezvous
 		sctx, scancel := context.WithCancel(context.Background())
 		defer scancel()
 		sEnd := link.End("S", sctx)
@@ -575,6 +576,11 @@ func driveC06(p *Pool, r *evid.Run) {
 			for _, pol := range []string{"run", "recv"} {
 				vs3 = append(vs3, Scn{Kind: "refrecv", Src: "v1spec", Cap: 2, Policy: pol, Script: bad, SelectAlts: true})
 			}
+		}
+	}
+	for _, scr := range [][]int{{0, 2, 3}, {3, 2, 0}, {}} {
+		for _, pol := range pols {
+			vs3 = append(vs3, Scn{Kind: "refrecv", Src: "v1", Cap: 1, Policy: pol, Script: scr, SelectAlts: true, Progress: true, Rendezvous: true})
 		}
 	}
 	exploreAll(p, r, "C06", vs3, 0, 0)
